@@ -399,6 +399,14 @@ def c01c(chk):
         else:
             g = chk.fn("<sfs_core::spectrum::Spectrum<sfs_core::spectrum::Counts> as core::ops::arith::AddAssign<&sfs_core::spectrum::count::Count>>::add_assign")
             chk.ob("C01.c", "Runner::run/Standard-arm/weight-one", g is not None and _add_assign_is_plus_one(g), f.loc(b), "AddAssign<&Count> for Scs must add 1.0")
+            # the count handed to `+=` is the payload of Site::Standard, and add_assign indexes by its argument
+            sl, info = f.slice_locals(t["args"][1], through_calls=False)
+            payload = any(dd[0] == "assign" and dd[3]["k"] == "use" and op_place(dd[3]["op"]) and any(e[0] == "downcast" and e[1] == "Standard" for e in op_place(dd[3]["op"])[1]) for l in sl for dd in f.defs.get(l, []))
+            idx_ok = False
+            if g is not None:
+                im = an.calls(g, N.INDEX_MUT)
+                idx_ok = len(im) == 1 and op_local(im[0][1]["args"][1]) is not None and g.copy_root(op_local(im[0][1]["args"][1])) == 2
+            chk.ob("C01.c", "Runner::run/Standard-arm/index-is-site-counts", payload and idx_ok, f.loc(b), "`scs += counts` with counts carried by Site::Standard; add_assign updates self[count]")
 
 
 def _add_assign_is_plus_one(g):
@@ -477,7 +485,23 @@ def c01d(chk):
         elif cp.startswith("core::option::Option::<T>::"):
             why = "idiom %s not on the reviewed list (fail closed)" % cp
     elif root is not None:
-        # switch form: every def of root is const 0 on the None edge of a switch on self.project
+        # switch form: const 0 on the None edge of a switch on self.project, or on the `false` edge of self.project.is_some()
+        # (`true` edge of is_none())
+        for x in [x for x in f.defs.get(root, []) if x[0] == "assign" and x[3]["k"] == "use" and const_val(x[3]["op"]) == 0]:
+            for cb, ct in f.calls():
+                isq = callee_is(ct["callee"], N.OPT_IS_SOME, N.OPT_IS_NONE)
+                if not isq:
+                    continue
+                tgt = an.arg_pointee(f, ct, 0)
+                if not (tgt and an.owned_self_field(tgt) == "project"):
+                    continue
+                for sb, s_ in an.switches_on_call_result(f, cb):
+                    st_ = f.term(sb)
+                    none_edge = an.edge_target(st_, 0) if callee_is(ct["callee"], N.OPT_IS_SOME) else st_["otherwise"]
+                    if an.dominated_by_edge(f, sb, none_edge, x[1]):
+                        ok = True
+                        why = "const 0 assigned on the `project is None` edge of %s" % callee_name(ct["callee"]).split("::")[-1]
+        # discriminant form
         defs = f.defs.get(root, [])
         consts = [x for x in defs if x[0] == "assign" and x[3]["k"] == "use" and const_val(x[3]["op"]) == 0]
         if consts:
@@ -1053,6 +1077,24 @@ def c02f(chk):
                 ret_plain = cl is not None and not any(rv["k"] in ("binop", "cast") for _, _, _, rv, _ in cl.assigns()) and not list(cl.calls())
                 ok = cap_prec and ret_plain
                 why = "closure captures self.precision=%s returns it unmodified=%s" % (cap_prec, ret_plain)
+    if not ok and len(sp) == 1:
+        # switch form: the precision local is assigned either const 0 (C01.d) or self.precision, unmodified
+        l = op_local(sp[0][1]["args"][1])
+        root = f.copy_root(l) if l is not None else None
+        defs = f.defs.get(root, []) if root is not None else []
+        vals = []
+        for x in defs:
+            if x[0] == "assign" and x[3]["k"] == "use":
+                if const_val(x[3]["op"]) == 0:
+                    vals.append("const0")
+                    continue
+                pl = op_place(x[3]["op"])
+                if pl and an.owned_self_field(f.canon(pl)) == "precision" and len(f.canon(pl)[1]) == 1:
+                    vals.append("self.precision")
+                    continue
+            vals.append("other")
+        ok = sorted(vals) == ["const0", "self.precision"]
+        why = "precision local assigned from %s" % vals
     chk.ob("C02.f", "Create::run/precision-passes-through-when-projecting", ok, f.loc(), why)
 
 
